@@ -267,6 +267,8 @@ func (sc SimpleColumn) WriteTo(store ReadOnlyFactStore, w io.Writer) error {
 		return ErrTooManyPreds
 	}
 	if sc.Deterministic {
+		// Sort a copy: the slice may be the store's own list of predicates.
+		preds = append([]ast.PredicateSym(nil), preds...)
 		sort.Slice(preds, func(i, j int) bool {
 			a := preds[i]
 			b := preds[j]
